@@ -182,6 +182,10 @@ def main(pid, tier, seed):
         meta[tid] = {'pool': pool, 'passwords': pws[:10], 'candidates': len(cands), 'language': len(lang), 'cand_list': cands}
         n_cands += len(cands)
 
+    # ---- composition model (Compose.tla): trainer -> guesser / scorer on every small training list, exact rationals ----
+    from . import compose
+    comp = compose.stage(tier, random.Random(seed * 104729 + 5), verdict, pid)
+
     verdicts, st = core.validate_traces('TrScore.tla', traces, chunk=4, timeout=900)
     for t in traces:
         v = verdicts[t['tid']]
@@ -207,13 +211,14 @@ def main(pid, tier, seed):
     s = traces[0]
     cov = {'evaluations': n_cands, 'distinct_nontrivial': sum(1 for t in traces for c in t['cands'] if c['r'] != 0),
            'traces_validated_against_impl': len(traces),
+           'composition': comp,
            'rule': 'one evaluation = one candidate string scored by the real scorer on a real trained ruleset and looked up in the real '
                    'guesser language table; non-trivial = non-zero score; candidates = training passwords, guesser output, one-edit '
                    'perturbations, unrelated strings, e-mail / website strings',
            'samples': [{'passwords': meta[s['tid']].get('passwords'), 'candidates': meta[s['tid']].get('cand_list', [])[:12]}],
            'trainings': len(traces), 'trace_validation': st, 'binding_selftest': selftest, 'model_checking': mc, 'states': mc['states'], 'transitions': mc['transitions'], 'exhaustive': False,
            'known_findings_reproduced': n_known, 'violation_histogram': verdict.histogram()}
-    core.write_evidence(pid, tier, seed, 'exploration', cov, time.time() - t0, violations=n_viol,
+    core.write_evidence(pid, tier, seed, 'model_checking', cov, time.time() - t0, violations=n_viol,
                         assumptions=['TLC compares ranks; floats clustered within relative 1e-9', 'e-mail / website detection recomputed with the detectors',
                                      'guesser language enumerated exhaustively (non-Markov pre-terminals) for small trained rulesets'])
     return rc
